@@ -132,10 +132,10 @@ def run_both(name, arr_e, arr_r, nested, args_e, args_r):
 
 
 # ---- families ----------------------------------------------------------------------------------------------
-def make_plain(name, argkinds, nkinds=len(KINDS)):
+def make_plain(name, argkinds, nkinds=len(KINDS), maxn=3):
     """Methods without callbacks; argument kinds: 'elem' (a search/insert value) or 'pos' (grid index)."""
     def h(n, kp, e0, e1, e2, x, p, q):
-        pre(0 <= n <= 3 and -2 <= e0 <= 2 and -2 <= e1 <= 2 and -2 <= e2 <= 2 and -2 <= x <= 3)
+        pre(0 <= n <= maxn and -2 <= e0 <= 2 and -2 <= e1 <= 2 and -2 <= e2 <= 2 and -2 <= x <= 3)
         kinds = pick(kp, KINDS[:nkinds])
         arr_e, arr_r, nested = build(n, kinds, [e0, e1, e2])
         import microjs.values as V
@@ -364,6 +364,16 @@ def make_typed(kind, num):
     return h
 
 
+CLAMP_GRID = [-1.0, -0.0, 0.0, 0.4, 0.5, 0.5000001, 0.6, 1.5, 2.5, 2.500001, 3.5, 254.4, 254.5, 254.50001, 255.0, 255.5, 256.0,
+              1e21, -1e21, NAN, INF, -INF, 5e-324, 127.49999999999999]
+
+
+def clamped_grid(i: int) -> bool:
+    x = pick(i, CLAMP_GRID)
+    with NoTracing():
+        return make_typed("Uint8ClampedArray", float)(x)
+
+
 PLAIN = {"push": ("elem", "elem"), "pop": (), "shift": (), "unshift": ("elem", "arr"), "toString": (), "join": ("pos",),
          "reverse": (), "concat": ("elem", "arr"), "indexOf": ("elem", "pos"), "lastIndexOf": ("elem", "pos"),
          "includes": ("elem", "pos"), "slice": ("pos", "pos"), "splice": ("pos", "pos", "elem")}
@@ -379,7 +389,7 @@ def harnesses():
             hs.append(Harness(id="C17.plain-all." + name, fn=make_plain(name, kinds),
                               bounds=["as C17.plain with all %d kind patterns" % len(KINDS)], per_path=60, budget=3000, tier="thorough",
                               require=("judged",), group="plain methods", functions=FNS))
-        hs.append(Harness(id="C17.plain." + name, fn=make_plain(name, kinds, 2 if two else len(KINDS)),
+        hs.append(Harness(id="C17.plain." + name, fn=make_plain(name, kinds, 1 if two else len(KINDS), 2 if two else 3),
                           bounds=["receiver length 0..3, kind pattern: index into %d patterns, integer payloads in [-2,2] (symbolic)" % len(KINDS),
                                   "position arguments: indices into the adversarial grid (%d values); element argument: symbolic int or undefined" % len(POS_GRID)],
                           per_path=60, budget=600, budget_thorough=1800, require=("judged",), group="plain methods", functions=FNS))
@@ -396,8 +406,12 @@ def harnesses():
     hs.append(Harness(id="C17.assign", fn=assign_case, bounds=["index / length values: index into 13 values; array length 0..3; 6 statement forms"],
                       per_path=60, budget=300, require=("judged",), group="element and length assignment", functions=FNS))
     for kind in list(TYPED) + ["Uint8ClampedArray"]:
+        clamped = kind == "Uint8ClampedArray"
         hs.append(Harness(id="C17.typed.%s.flt" % kind, fn=make_typed(kind, float), bounds=["stored value: every IEEE double"],
-                          per_path=120, budget=400, require=("judged",), group="typed arrays", functions=FNS))
+                          per_path=120, budget=90 if clamped else 400, budget_thorough=900, require=("judged",), group="typed arrays",
+                          functions=FNS, must_exhaust=not clamped))
         hs.append(Harness(id="C17.typed.%s.int" % kind, fn=make_typed(kind, int), bounds=["stored value: every integer |n| <= 2**53"],
                           per_path=60, budget=200, require=("judged",), group="typed arrays", functions=FNS))
+    hs.append(Harness(id="C17.typed.Uint8ClampedArray.grid", fn=clamped_grid, bounds=["stored value: index into %d boundary doubles" % len(CLAMP_GRID)],
+                      per_path=60, budget=100, require=("judged",), group="typed arrays", functions=FNS))
     return hs
